@@ -465,15 +465,30 @@ def _compile_and_run_c(fragments, bits):
     src.append('  }')
     src.append('  return 0;')
     src.append('}')
-    d = tempfile.mkdtemp(prefix='omega_c13_', dir='/var/tmp')
+    try:
+        d = tempfile.mkdtemp(prefix='omega_c13_', dir='/var/tmp')
+    except OSError:
+        try:
+            d = tempfile.mkdtemp(prefix='omega_c13_')
+        except OSError:
+            return None       # nowhere to compile: not omega's fault
     try:
         with open(f'{d}/t.cpp', 'w') as fd:
             fd.write('\n'.join(src))
-        p = subprocess.run([_CXX, '-w', '-O0', '-o', f'{d}/t', f'{d}/t.cpp'],
-                           capture_output=True, text=True)
+        try:
+            p = subprocess.run(
+                [_CXX, '-w', '-O0', '-o', f'{d}/t', f'{d}/t.cpp'],
+                capture_output=True, text=True)
+        except OSError:
+            return None
         if p.returncode:
+            if 'error:' not in p.stderr:
+                return None   # the tool chain failed, not the program text
             return 'does not compile: ' + p.stderr[-500:]
-        out = subprocess.run([f'{d}/t'], capture_output=True, text=True)
+        try:
+            out = subprocess.run([f'{d}/t'], capture_output=True, text=True)
+        except OSError:
+            return None
         res = {}
         for ln in out.stdout.splitlines():
             k, m, name, v = ln.split()
